@@ -16,7 +16,7 @@ WEIGHTS = {
     "inst.reference=": 6, "def.remove_ports_from": 2, "port.remove_pins_from": 2,
     "def.remove_children_from": 2, "def.remove_cables_from": 2, "cable.remove_wires_from": 2,
     "port.new": 2, "cable.new": 2, "inst.new": 2, "def.new": 2, "lib.new": 2, "proxy.new": 2,
-    "bundle.is_scalar=": 1, "bundle.is_array=": 1, "bundle.is_downto=": 0, "bundle.lower_index=": 0,
+    "el.clone_container": 1, "bundle.is_scalar=": 1, "bundle.is_array=": 1, "bundle.is_downto=": 0, "bundle.lower_index=": 0,
     "port.direction=": 0,
 }
 
